@@ -15,3 +15,6 @@ func (v *VerifPktRing) Close() { v.pr.Close() }
 
 // VerifPktRingSizes returns (batchSize, ringSize).
 func VerifPktRingSizes() (int, int) { return batchSize, ringSize }
+
+// State returns the underlying ring's (readable, writable, closed).
+func (v *VerifPktRing) State() (int, int, bool) { return v.pr.ring.VerifState() }
